@@ -461,5 +461,12 @@ class Thread(threading.Thread):
             # NB: the session method is used instead of the (interruptible) log_error function so that the error is
             # also logged when the exception is the AbortTest raised because the tests have been manually stopped
             self._session.log_error("Caught unexpected exception while running test: " + traceback.format_exc())
+        except SystemExit:
+            # sys.exit() is the regular way of ending a thread from the inside
+            raise
+        except BaseException:
+            # any other exception that is not an Exception is an uncaught exception of the test as well
+            self._session.log_error("Caught unexpected exception while running test: " + traceback.format_exc())
+            raise
         finally:
             self._session.end_step()
